@@ -93,9 +93,14 @@ static std::string sanitizer_summary(const std::string &path, std::string *detai
     if (line.find("SUMMARY:") != std::string::npos && sum.empty()) sum = line.substr(line.find("SUMMARY:") + 9);
     if (line.find("Assertion") != std::string::npos && line.find("failed") != std::string::npos && sum.empty()) sum = "assert: " + line;
     if (line.find("runtime error:") != std::string::npos && sum.empty()) sum = "ubsan: " + line;
-    if (frames < 6 && line.find("    #") == 0) { frames++; }
+    if (frames < 1 && line.find("    #") == 0 && line.find("/repo/") != std::string::npos) {
+      // first frame inside libcoap: function + file:line make the signature specific
+      size_t in = line.find(" in ");
+      if (in != std::string::npos) { top_frames = line.substr(in + 4); frames++; }
+    }
   }
   if (detail) *detail = all;
+  if (!top_frames.empty() && sum.find("/repo/") == std::string::npos) sum += " at " + top_frames;
   // strip addresses so the signature is stable
   sum = std::regex_replace(sum, std::regex("0x[0-9a-f]+"), "0x?");
   {  // keep file:line:col, normalise run-dependent numbers in the message text
